@@ -38,8 +38,9 @@ def witnesses():
     w1 = [{"k": "create", "def": d, "sql": d.sql()}, ins([1, 2]), ins([3]),
           {"k": "delete", "table": "t0", "pred": ("true",), "def": d, "sql": "delete from t0"},
           {"k": "compact"}, {"k": "reopen"}, {"k": "reopen"}, ins([5, 6]), ins([7])]
-    return [sg.make_hist(900001, (4096, 128, 1, 1), ["t0", "t1", "t2"], w1,
-                         expect_sig="reopen:rowset-id-reissued-under-stale-dv")]
+    # former finding reopen:rowset-id-reissued-under-stale-dv (fixed by repository commit 5071ff5):
+    # kept as a regression history, it must simply agree with the model and the oracle now
+    return [sg.make_hist(900001, (4096, 128, 1, 1), ["t0", "t1", "t2"], w1)]
 
 
 def load_corpus():
